@@ -33,6 +33,10 @@ class Facts:
                 except Exception:
                     pass
                 try:
+                    normalise_find_map(b)
+                except Exception:
+                    pass
+                try:
                     normalise_matches(b)
                 except Exception:
                     pass
@@ -1128,6 +1132,59 @@ def assigned_locals_direct(root, lid):
             if isinstance(l, dict) and l.get("k") == "Local" and l.get("id") == lid:
                 return {lid}
     return set()
+
+
+def normalise_find_map(body):
+    """In return position, `RANGE.find_map(|PAT| BODY).ok_or_else(|| E)` (or `.ok_or(E)`) is the loop
+    `for PAT in RANGE { if let Some(v) = BODY { return Ok(v) } }  Err(E)` — provided BODY has no `return` of its own (which would leave the closure)."""
+    root = body.get("body")
+    if not isinstance(root, dict) or root.get("k") != "Block":
+        return
+    fresh = [max([x.get("id", 0) for x in walk(root) if isinstance(x.get("id"), int)] + [0]) + 700000]
+
+    def rewrite(e):
+        x = e
+        while isinstance(x, dict) and x.get("k") == "Block" and not x.get("stmts") and x.get("expr") is not None:
+            x = x["expr"]
+        if not (isinstance(x, dict) and x.get("k") == "MCall" and x["name"] in ("ok_or", "ok_or_else") and len(x.get("args", [])) == 1):
+            return None
+        fm = x["recv"]
+        if not (isinstance(fm, dict) and fm.get("k") == "MCall" and fm["name"] == "find_map" and len(fm.get("args", [])) == 1 and fm["args"][0].get("k") == "Closure"):
+            return None
+        rng = fm["recv"]
+        rp = rng
+        while isinstance(rp, dict) and rp.get("k") in ("Paren", "DropTemps", "Use"):
+            rp = rp.get("e")
+        is_range = isinstance(rp, dict) and ((rp.get("k") == "Struct" and (rp.get("def") or "").endswith("ops::Range")) or (rp.get("k") == "Call" and (callee(rp) or "").endswith("RangeInclusive::<Idx>::new")))
+        cl = fm["args"][0]
+        if not is_range or len(cl.get("params", [])) != 1 or any(q.get("k") == "Ret" for q in walk(cl["body"], into_closures=False)):
+            return None
+        err = x["args"][0]
+        if x["name"] == "ok_or_else":
+            if err.get("k") != "Closure" or err.get("params"):
+                return None
+            err = err["body"]
+        fresh[0] += 1
+        vid = fresh[0]
+        oty = cl["body"].get("ty")
+        found = {"k": "Local", "id": vid, "name": "__found", "sp": cl.get("sp")}
+        okc = {"k": "Call", "f": {"k": "Path", "def": "std::prelude::v1::Ok", "ctor_of": "std::result::Result::Ok", "dk": "Ctor(Variant, Fn)", "ty": ""}, "args": [found], "ty": e.get("ty"), "sp": cl.get("sp")}
+        errc = {"k": "Call", "f": {"k": "Path", "def": "std::prelude::v1::Err", "ctor_of": "std::result::Result::Err", "dk": "Ctor(Variant, Fn)", "ty": ""}, "args": [err], "ty": e.get("ty"), "sp": err.get("sp")}
+        let = {"k": "Let", "pat": {"k": "PTupleStruct", "def": "std::option::Option::Some", "ps": [{"k": "Bind", "id": vid, "name": "__found", "mode": "BindingMode(No, Not)"}]}, "init": cl["body"], "ty": "bool", "sp": cl.get("sp")}
+        iff = {"k": "If", "c": let, "t": {"k": "Block", "stmts": [{"k": "Semi", "e": {"k": "Ret", "e": okc, "ty": "!", "sp": cl.get("sp")}, "sp": cl.get("sp")}], "ty": "()", "sp": cl.get("sp")}, "ty": "()", "sp": cl.get("sp")}
+        fresh[0] += 1
+        loop = {"k": "For", "id": fresh[0], "pat": cl["params"][0], "iter": rng, "body": {"k": "Block", "stmts": [{"k": "Semi", "e": iff, "sp": cl.get("sp")}], "ty": "()", "sp": cl.get("sp")}, "ty": "()", "sp": fm.get("sp")}
+        return {"k": "Block", "stmts": [{"k": "Semi", "e": loop, "sp": fm.get("sp")}], "expr": errc, "ty": e.get("ty"), "sp": e.get("sp")}
+    if root.get("expr") is not None:
+        r = rewrite(root["expr"])
+        if r is not None:
+            root["stmts"] = list(root.get("stmts") or []) + r["stmts"]
+            root["expr"] = r["expr"]
+    for n in walk(root):
+        if n.get("k") == "Ret" and isinstance(n.get("e"), dict):
+            r = rewrite(n["e"])
+            if r is not None:
+                n["e"] = r
 
 
 def simplify_lets(body):
